@@ -188,12 +188,16 @@ def translate_c_to_sympy(source_circuit):
             target_circuit *= GATE_SYMPY[gate.name](gate.target[0])
         elif gate.name in {"PHASE", "RX", "RY", "RZ"}:
             target_circuit *= GATE_SYMPY[gate.name](gate.target[0], gate.parameter)
-        elif gate.name in {"CNOT", "CH", "CX", "CY", "CZ", "CS", "CT"}:
+        elif gate.name in {"CNOT", "CX"} and len(gate.control) > 1:
+            target_circuit *= controlled_gate(GATE_SYMPY["X"])(tuple(gate.control), gate.target[0])
+        elif gate.name in {"CNOT", "CX"}:
             target_circuit *= GATE_SYMPY[gate.name](gate.control[0], gate.target[0])
+        elif gate.name in {"CH", "CY", "CZ", "CS", "CT"}:
+            target_circuit *= GATE_SYMPY[gate.name](tuple(gate.control), gate.target[0])
         elif gate.name in {"SWAP"}:
             target_circuit *= GATE_SYMPY[gate.name](gate.target[0], gate.target[1])
         elif gate.name in {"CRX", "CRY", "CRZ", "CPHASE"}:
-            target_circuit *= GATE_SYMPY[gate.name](gate.control[0], gate.target[0], gate.parameter)
+            target_circuit *= GATE_SYMPY[gate.name](tuple(gate.control), gate.target[0], gate.parameter)
         else:
             raise ValueError(f"Gate '{gate.name}' not supported on backend SYMPY")
 
